@@ -82,7 +82,11 @@ type DHCPServer interface {
 	Start() (err error)
 	// Stop - stop server
 	Stop() (err error)
-	getLeasesRef() []*dhcpsvc.Lease
+
+	// cloneLeases returns deep clones of all the leases, including the expired
+	// and the blocklisted ones.  It must be safe for concurrent use and must
+	// not be called with the server's lease lock held.
+	cloneLeases() (leases []*dhcpsvc.Lease)
 }
 
 // V4ServerConf - server configuration
